@@ -19,6 +19,7 @@ import time
 import traceback
 
 ROOT = os.path.realpath(os.path.join(os.path.dirname(__file__), '..'))
+OUTDIR = os.environ.get('VERIF_OUTDIR', ROOT)       # evidence / replay files (the mutation tooling redirects them)
 sys.path.insert(0, ROOT)
 
 from . import terms as tm          # noqa: E402
@@ -486,7 +487,7 @@ _CLEARED = set()
 
 
 def write_replay(prop, viol):
-    d = os.path.join(ROOT, 'replays', prop)
+    d = os.path.join(OUTDIR, 'replays', prop)
     os.makedirs(d, exist_ok=True)
     if prop not in _CLEARED:
         _CLEARED.add(prop)
@@ -498,7 +499,7 @@ def write_replay(prop, viol):
     p = os.path.join(d, '%s_%s.json' % (safe, hashlib.sha1(viol['obligation'].encode()).hexdigest()[:8]))
     with open(p, 'w') as f:
         json.dump(dict(property=prop, **viol), f, indent=1, default=str)
-    return os.path.relpath(p, ROOT)
+    return os.path.relpath(p, OUTDIR)
 
 
 def replay(path):
